@@ -136,6 +136,11 @@ func (env *ExecEnv) expand(word ast.Word, mode ExpMode) (fields []*field, err er
 				}
 				fields[len(fields)-1].join(s, true)
 			case `"`:
+				if len(env.Args) < 2 && onlyAt(w.Value) {
+					// "$@" without positional parameters generates
+					// no field at all
+					continue
+				}
 				word, err := env.expand(w.Value, mode&Arith|Quote)
 				if err != nil {
 					return nil, err
@@ -167,6 +172,16 @@ func (env *ExecEnv) expand(word ast.Word, mode ExpMode) (fields []*field, err er
 		}
 	}
 	return
+}
+
+// onlyAt reports whether w consists of $@ expansions only.
+func onlyAt(w ast.Word) bool {
+	for _, p := range w {
+		if pe, ok := p.(*ast.ParamExp); !ok || pe.Name.Value != "@" || pe.Op != "" {
+			return false
+		}
+	}
+	return len(w) != 0
 }
 
 // expandTilde performs tilde expansion.
